@@ -332,7 +332,8 @@ def check_2d(ctx, m, rng, full=True, lite=False):
         # masked; every conversion must behave as for the boolean array
         nat_r = 1.0 + idx + 0.25 * rng.random((H, W))
         for spelling, raw in (("int64", m.astype(np.int64)), ("float64", m.astype(np.float64)), ("uint8", m.astype(np.uint8)),
-                              ("list_of_int", m.astype(int).tolist()), ("list_of_bool", m.tolist())):
+                              ("list_of_int", m.astype(int).tolist()), ("list_of_bool", m.tolist()),
+                              ("fortran_ordered_bool", np.asfortranarray(m)), ("transposed_view", np.ascontiguousarray(m.T).T)):
             try:
                 mk = aa.Mask2D(mask=raw, pixel_scales=(1.0, 2.0))
                 A1 = aa.Array2D(values=nat_r.copy(), mask=mk)
@@ -343,7 +344,9 @@ def check_2d(ctx, m, rng, full=True, lite=False):
                         and np.array_equal(_np(A2.native), np.where(m, 0.0, nat_r)) and np.array_equal(_np(A2.slim), nat_r[~m])
                         and np.array_equal(_np(A1.native.slim), nat_r[~m])
                         and np.array_equal(_np(G1.slim)[:, 1], -nat_r[~m]) and np.array_equal(_np(G1.native)[:, :, 0], np.where(m, 0.0, nat_r))
-                        and np.array_equal(_np(mk.derive_indexes.native_for_slim), np.argwhere(~m)))
+                        and np.array_equal(_np(mk.derive_indexes.native_for_slim), np.argwhere(~m))
+                        and np.array_equal(_np(mk.derive_indexes.unmasked_slim), np.flatnonzero(~m.ravel()))
+                        and np.array_equal(_np(mk.derive_indexes.masked_slim), np.flatnonzero(m.ravel())))
                 ctx.check(good, "mask_spelling.same_as_boolean", spelling=spelling, mask=m, got=lambda: [_np(A1.slim), _np(A1.native)])
             except Exception as e:
                 ctx.check(False, "mask_spelling.same_as_boolean", spelling=spelling, mask=m, exception=repr(e)[:200])
@@ -438,3 +441,11 @@ def run_unit(ctx, u):
             m, fam = gen.random_mask(r, H, W)
             ctx.classes["family:" + fam] += 1
             check_2d(ctx, m, r, full=True)
+            # 1-D masks far longer than the exhaustive bound (17 .. 200 pixels)
+            if i % 2 == 0:
+                L1 = int(r.integers(17, 201))
+                m1 = r.random(L1) < float(r.choice([0.1, 0.5, 0.9]))
+                if m1.all():
+                    m1[int(r.integers(L1))] = False
+                ctx.classes["dim1_long"] += 1
+                check_1d(ctx, m1, r)
